@@ -413,6 +413,7 @@ def stepCore (e : Env) (line : String) : Env × String :=
       let some γ := parseRat g | throw "bad rat"
       let some n := ns.toNat? | throw "bad n"
       pure (e, showSpec (Pepit.Method.pg γ n))
+    | "spec.gfsc" :: _ => pure (e, showSpec Pepit.Method.gfsc)
     | "spec.subg" :: _ :: g :: ns :: _ =>
       let some γ := parseRat g | throw "bad rat"
       let some n := ns.toNat? | throw "bad n"
